@@ -2,14 +2,17 @@ package props
 
 import (
 	"fmt"
+	"go/token"
 	"go/types"
 	"sort"
 	"strings"
 
 	"golang.org/x/tools/go/ssa"
 
+	"verif/internal/core"
 	"verif/internal/engine/effects"
 	"verif/internal/engine/locks"
+	"verif/internal/engine/paths"
 	"verif/internal/ir"
 )
 
@@ -25,7 +28,7 @@ const (
 var ruleText = map[string]string{
 	ruleL1: "at every normal return of every function that operates a lock of the selected classes, the must- and may-locksets equal the entry lockset (no lock is left held, none is released that was not acquired); deferred unlocks and deferred closures are applied at function exit; panic exits are ignored.",
 	ruleL2: "every sync.Cond.Wait executes with that cond's own L in the must-lockset and inside a natural loop that has a conditional exit (the predicate is re-tested after every wake-up).",
-	ruleL3: "every read of state written by the other side (a location the wait-loop exit tests depend on, stored outside constructors, and not stored by the waiting side itself) that feeds a wait-loop test executes with the cond's L held - a value read before Lock() and tested after it is a lost wake-up window.",
+	ruleL3: "(a) before every Wait, on every path from taking the lock or from the previous wake-up, each location written by the other side that the wait loops of that cond test is re-read; (b) every read of state written by the other side (a location the wait-loop exit tests depend on, stored outside constructors, and not stored by the waiting side itself) that feeds a wait-loop test executes with the cond's L held - a value read before Lock() and tested after it is a lost wake-up window.",
 	ruleL4: "every Broadcast/Signal executes with the L of that same cond in the must-lockset (the predicate lives in atomics written outside the lock, so store; Lock(c.L); Broadcast orders the wake-up after the waiter's test).",
 	ruleL5: "every store (direct, atomic, or through a setter) to a location that a wait loop of cond c depends on and that the waiting side does not own is followed on every path to function exit by Broadcast(c) on the same object; constructors are exempt.",
 	ruleL6: "while a lock is held no call may block on something else (another cond's Wait, channel operations, WaitGroup.Wait, net I/O, time.Sleep); the one designed exception is service.wmu held across the outgoing ring's space wait.",
@@ -254,6 +257,43 @@ func monitorRules(c *Ctx, m *locks.Monitor) (waits, bcasts, stores int) {
 				}
 			}
 		}
+		// L3b: each foreign predicate location is (re-)read under the lock before every Wait
+		for _, wl := range m.Waits[cf] {
+			fn := wl.Wait.Instr.Parent()
+			lp := wl.Wait.LockPath()
+			g := paths.New(c.P, fn, 0)
+			var starts []paths.Node
+			for _, op := range lk.Funcs[fn].Ops {
+				if (op.Kind == locks.OpLock) && locks.Key(op.Path) == locks.Key(lp) {
+					if call, ok := op.Instr.(*ssa.Call); ok {
+						starts = append(starts, g.Succ(paths.Node{F: g.Root, Instr: call, Phase: -1})...)
+					}
+				}
+			}
+			waitNode := paths.Node{F: g.Root, Instr: wl.Wait.Instr, Phase: -1}
+			starts = append(starts, g.Succ(waitNode)...)
+			for _, loc := range locks.SortedKeys(m.Foreign[cf]) {
+				reads := map[ssa.Instruction]bool{}
+				for _, pr := range wl.PredReads {
+					if rel, ok := locks.RelTo(pr.Path, m.Type); ok && rel == loc {
+						reads[pr.Instr] = true
+					}
+				}
+				k3 := fmt.Sprintf("%s:wait(%s):tested-before-wait(%s)", fname(fn), cf, loc)
+				if len(reads) == 0 {
+					// this loop does not depend on that location at all: another loop of the cond does
+					c.R.Bad(ruleL3, k3, c.P.InstrPos(wl.Wait.Instr), fmt.Sprintf("the wait loop does not test %s although other wait loops of %s do and it is written by the other side: a change of it (e.g. Close) cannot end this wait", loc, cf))
+					continue
+				}
+				p := g.FindPath(starts, func(n paths.Node) bool { return reads[n.Instr] }, func(n paths.Node) bool { return n.Instr == wl.Wait.Instr && n.F == g.Root })
+				if p != nil {
+					c.R.Bad(ruleL3, k3, c.P.InstrPos(wl.Wait.Instr),
+						fmt.Sprintf("Wait on %s can be reached (after taking the lock, or after a previous wake-up) without re-reading %s: if it changed before, the waiter sleeps on a condition that already holds", cf, loc), g.Describe(p)...)
+				} else {
+					c.R.Ok(ruleL3, k3, c.P.InstrPos(wl.Wait.Instr), fmt.Sprintf("every path from Lock / a previous wake-up to Wait re-reads %s under the lock", loc))
+				}
+			}
+		}
 		// L4
 		for _, b := range m.Broadcasts[cf] {
 			bcasts++
@@ -281,14 +321,11 @@ func monitorRules(c *Ctx, m *locks.Monitor) (waits, bcasts, stores int) {
 				continue
 			}
 			rel, ok := locks.RelTo(ac.Path, m.Type)
-			if !ok {
+			if !ok || !m.Responsible[fn][rel] {
 				continue
 			}
-			// responsibility: innermost function in which the location is monitor-relative
-			if !ac.Direct && ac.Via != nil {
-				if calleeSeesMonitor(eff, ac.Via, m, rel) {
-					continue
-				}
+			if !ac.Direct && ac.Via != nil && calleeSeesMonitor(eff, ac.Via, m, rel) {
+				continue
 			}
 			for _, cf := range m.Conds {
 				if !m.Foreign[cf][rel] {
@@ -301,9 +338,11 @@ func monitorRules(c *Ctx, m *locks.Monitor) (waits, bcasts, stores int) {
 				done[id] = true
 				stores++
 				key := fmt.Sprintf("%s:store(%s)->broadcast(%s)", fname(fn), rel, cf)
-				path := pathAvoiding(ac.Instr, func(in ssa.Instruction) bool {
-					call, ok := in.(*ssa.Call)
-					if !ok {
+				g := paths.New(c.P, fn, 2)
+				root := ac.Path.Root
+				isBcast := func(n paths.Node) bool {
+					call := paths.CallAt(n)
+					if call == nil {
 						return false
 					}
 					op, ok := locks.CondOpOf(call)
@@ -311,14 +350,30 @@ func monitorRules(c *Ctx, m *locks.Monitor) (waits, bcasts, stores int) {
 						return false
 					}
 					r2, ok := locks.RelTo(op.Cond, m.Type)
-					return ok && r2 == cf && op.Cond.Root == ac.Path.Root
-				})
+					if !ok || r2 != cf {
+						return false
+					}
+					// in the root frame it must be the same object; in an inlined helper the
+					// object is the helper's parameter (bound to the same receiver)
+					return n.F != g.Root || op.Cond.Root == root
+				}
+				from := g.Succ(paths.Node{F: g.Root, Instr: ac.Instr, Phase: -1})
+				if _, isDefer := ac.Instr.(*ssa.Defer); isDefer {
+					// a deferred store runs at exit: look from the RunDefers nodes that run it
+					from = nil
+					for _, n := range g.All() {
+						if n.F == g.Root && paths.DeferredCall(n) == ac.Instr {
+							from = append(from, g.Succ(n)...)
+						}
+					}
+				}
+				path := g.FindPath(from, isBcast, isExit)
 				if path == nil {
 					c.R.Ok(ruleL5, key, c.P.InstrPos(ac.Instr), fmt.Sprintf("every path from the store of %s to a return passes %s.Broadcast", ac.Path, cf))
 				} else {
 					c.R.Bad(ruleL5, key, c.P.InstrPos(ac.Instr),
 						fmt.Sprintf("store to %s (tested by the wait loops of %s) can reach a return without Broadcast of %s: a blocked waiter is never woken", ac.Path, cf, cf),
-						describePath(c, path)...)
+						g.Describe(path)...)
 				}
 			}
 		}
@@ -446,4 +501,235 @@ func describePath(c *Ctx, path []ssa.Instruction) []string {
 		out = append(out, fmt.Sprintf("%s %s: block %d: %s", tag, c.P.InstrPos(in), in.Block().Index, in.String()))
 	}
 	return out
+}
+
+// ---------------------------------------------------------------------------
+// L6: blocking while a lock is held, lock order
+
+type blocker struct {
+	Kind string // "cond:<class>", "waitgroup", "chan", "sleep", "netio", "dial"
+	At   ssa.Instruction
+}
+
+// directBlockers lists the blocking operations an instruction performs itself.
+func directBlockers(in ssa.Instruction) []blocker {
+	switch x := in.(type) {
+	case *ssa.Send:
+		return []blocker{{"chan", x}}
+	case *ssa.UnOp:
+		if x.Op == token.ARROW {
+			return []blocker{{"chan", x}}
+		}
+	case *ssa.Select:
+		if x.Blocking {
+			return []blocker{{"chan", x}}
+		}
+	case *ssa.Call:
+		cc := x.Common()
+		if op, ok := locks.CondOpOf(x); ok && op.Kind == locks.CondWait {
+			return []blocker{{"cond:" + op.Cond.Class(), x}}
+		}
+		if ir.IsMethod(cc, "sync", "WaitGroup", "Wait") {
+			return []blocker{{"waitgroup", x}}
+		}
+		if ir.IsFunc(cc, "time", "Sleep") {
+			return []blocker{{"sleep", x}}
+		}
+		if ir.IsFunc(cc, "net", "Dial") || ir.IsFunc(cc, "crypto/tls", "Dial") || ir.IsFunc(cc, "net", "Listen") {
+			return []blocker{{"dial", x}}
+		}
+		if cc.IsInvoke() {
+			n := cc.Method.Name()
+			t := cc.Value.Type()
+			if (n == "Read" || n == "Write" || n == "Accept") &&
+				(ir.TypeIs(t, "net", "Conn") || ir.TypeIs(t, "io", "Reader") || ir.TypeIs(t, "io", "Writer") || ir.TypeIs(t, "net", "Listener") ||
+					ir.TypeIs(t, core.ModPath+"/service", "netReader")) {
+				return []blocker{{"netio", x}}
+			}
+		}
+	}
+	return nil
+}
+
+// blockSummaries computes, per library function, the blocking operations it may
+// reach (static callees, closures, and VTA-resolved dynamic callees inside the library).
+func blockSummaries(c *Ctx) map[*ssa.Function]map[string]blocker {
+	sum := map[*ssa.Function]map[string]blocker{}
+	for _, fn := range c.P.Funcs {
+		sum[fn] = map[string]blocker{}
+	}
+	for changed := true; changed; {
+		changed = false
+		for _, fn := range c.P.Funcs {
+			s := sum[fn]
+			for _, b := range fn.Blocks {
+				for _, in := range b.Instrs {
+					for _, bl := range directBlockers(in) {
+						if _, ok := s[bl.Kind]; !ok {
+							s[bl.Kind] = bl
+							changed = true
+						}
+					}
+					call, ok := in.(ssa.CallInstruction)
+					if !ok {
+						continue
+					}
+					if _, isGo := call.(*ssa.Go); isGo {
+						continue
+					}
+					if _, isDefer := call.(*ssa.Defer); isDefer {
+						// deferred calls run at exit; counted there conservatively as part of this function
+					}
+					for _, callee := range c.P.Callees(call) {
+						if cs, ok := sum[callee]; ok {
+							for k, v := range cs {
+								if _, have := s[k]; !have {
+									s[k] = blocker{k, v.At}
+									changed = true
+								}
+							}
+						}
+					}
+					if cl := closureOf(call.Common()); cl != nil {
+						if cs, ok := sum[cl]; ok {
+							for k, v := range cs {
+								if _, have := s[k]; !have {
+									s[k] = v
+									changed = true
+								}
+							}
+						}
+					}
+				}
+			}
+		}
+	}
+	return sum
+}
+
+// exempt pairs (held lock class, blocker kind) with the reason.
+var l6Exempt = map[[2]string]string{
+	{"service.service.wmu", "cond:service.buffer.pcond"}: "by design the per-connection write mutex is held across the outgoing ring's space wait so that packets are written whole (C17); the wait is released by the sender goroutine or by Close",
+}
+
+func blockingUnderLock(c *Ctx) {
+	lk := c.Locks()
+	c.R.Rule(ruleL6, ruleText[ruleL6])
+	sums := blockSummaries(c)
+	nsites := 0
+	order := map[[2]string]ssa.Instruction{} // held class -> acquired class
+	for _, fn := range c.P.Funcs {
+		fi := lk.Funcs[fn]
+		if fi == nil {
+			continue
+		}
+		for _, b := range fn.Blocks {
+			for _, in := range b.Instrs {
+				st, ok := fi.Before[in]
+				if !ok || len(st.May) == 0 {
+					continue
+				}
+				var bls []blocker
+				bls = append(bls, directBlockers(in)...)
+				if call, ok := in.(*ssa.Call); ok {
+					if k, path, isLock := locks.LockOp(call.Common()); isLock && (k == locks.OpLock || k == locks.OpRLock) {
+						for _, h := range st.May {
+							if locks.Key(h.Path) != locks.Key(path) {
+								order[[2]string{h.Path.Class(), path.Class()}] = in
+							}
+						}
+					}
+					for _, callee := range c.P.Callees(call) {
+						for _, v := range sums[callee] {
+							bls = append(bls, v)
+						}
+						// lock order through callees
+						if cfi := lk.Funcs[callee]; cfi != nil {
+							for _, op := range cfi.Ops {
+								if op.Kind == locks.OpLock || op.Kind == locks.OpRLock {
+									for _, h := range st.May {
+										if h.Path.Class() != op.Path.Class() {
+											order[[2]string{h.Path.Class(), op.Path.Class()}] = in
+										}
+									}
+								}
+							}
+						}
+					}
+				}
+				if len(bls) == 0 {
+					continue
+				}
+				seen := map[string]bool{}
+				for _, bl := range bls {
+					for _, h := range st.May {
+						if h.Tainted {
+							continue // leaked by a callee that is reported itself (L1)
+						}
+						hc := h.Path.Class()
+						// a cond's own Wait while holding only that cond's L releases it
+						if strings.HasPrefix(bl.Kind, "cond:") && hc == strings.TrimPrefix(bl.Kind, "cond:")+".L" {
+							continue
+						}
+						id := hc + "|" + bl.Kind
+						if seen[id] {
+							continue
+						}
+						seen[id] = true
+						nsites++
+						key := fmt.Sprintf("%s:holding(%s):%s", fname(fn), hc, bl.Kind)
+						if why, ok := l6Exempt[[2]string{hc, bl.Kind}]; ok {
+							c.R.Ok(ruleL6, key, c.P.InstrPos(in), "designed exception: "+why)
+							continue
+						}
+						c.R.Bad(ruleL6, key, c.P.InstrPos(in),
+							fmt.Sprintf("%s may block on %s (at %s) while %s is held: everybody else needing that lock - including Close and teardown - waits behind it", in.String(), bl.Kind, c.P.InstrPos(bl.At), h.Path),
+							"holder "+fname(fn), "lock "+h.Path.String(), "blocking operation "+c.P.InstrPos(bl.At)+": "+bl.At.String())
+					}
+				}
+			}
+		}
+	}
+	c.R.Count("call sites executed with a lock held that can block (L6)", nsites)
+	// lock order: the held->acquired relation over classes must be acyclic
+	adj := map[string][]string{}
+	for e := range order {
+		adj[e[0]] = append(adj[e[0]], e[1])
+	}
+	var cyc []string
+	state := map[string]int{}
+	var dfs func(n string, stack []string)
+	dfs = func(n string, stack []string) {
+		state[n] = 1
+		stack = append(stack, n)
+		sort.Strings(adj[n])
+		for _, m := range adj[n] {
+			if state[m] == 1 {
+				cyc = append(cyc, strings.Join(append(stack, m), " -> "))
+			} else if state[m] == 0 {
+				dfs(m, stack)
+			}
+		}
+		state[n] = 2
+	}
+	var nodes []string
+	for n := range adj {
+		nodes = append(nodes, n)
+	}
+	sort.Strings(nodes)
+	for _, n := range nodes {
+		if state[n] == 0 {
+			dfs(n, nil)
+		}
+	}
+	var es []string
+	for e := range order {
+		es = append(es, e[0]+" -> "+e[1])
+	}
+	sort.Strings(es)
+	if len(cyc) > 0 {
+		c.R.Bad(ruleL6, "lock-order:acyclic", "", "the held->acquired relation between lock classes has a cycle: "+strings.Join(cyc, "; "))
+	} else {
+		c.R.Ok(ruleL6, "lock-order:acyclic", "", fmt.Sprintf("held->acquired relation over lock classes is acyclic (%d edges: %s)", len(es), strings.Join(es, ", ")))
+	}
 }
